@@ -63,6 +63,7 @@ type detOpts struct {
 	NoStop  bool
 	Setup   func(s *streamsql.Streamsql) error // after Execute, before the script (tables, ...)
 	SinkDelay time.Duration // virtual time the recording sync sink takes per batch (a lagging consumer)
+	PanicSink bool          // a synchronous sink registered before the recording one panics on every batch (the engine recovers it)
 }
 
 // detExec runs one query instance under the scheduler's default (deterministic) schedule with
@@ -98,6 +99,9 @@ func detExec(sql string, o detOpts, script func(e *Env)) detResult {
 				}
 			}
 		}()
+		if o.PanicSink {
+			s.AddSyncSink(func([]map[string]any) { panic("an earlier synchronous sink panics on every batch") })
+		}
 		s.AddSyncSink(func(rows []map[string]any) {
 			rawRefs = append(rawRefs, rows)
 			r.Batches = append(r.Batches, copyBatch(rows))
